@@ -118,8 +118,22 @@ def check(ctx):
         ok = bool(sd) and all(len(c.args) == 1 and src(c).replace(" ", "") == "Node().byName('.'.join(levels[:depth]))" for c in sd)
         V = FuncView(ctx, f)
         inc = [n for n in V.cfg.nodes if isinstance(n.ast, ast.AugAssign) and dotted(n.ast.target) == "depth"]
-        sdn = V.call_nodes("byName")
-        ok = ok and bool(inc) and V.dominated(sdn, inc)
+        sdn = V.cfg.find(lambda x: isinstance(x, ast.Call) and isinstance(x.func, ast.Attribute) and x.func.attr == "byName")
+        hdrs = [n for n in V.cfg.nodes if n.kind == "for" and
+                any(id(c.ast) in {id(y) for y in ast.walk(n.ast)} for c in sdn)]
+        enum = [h for h in hdrs if isinstance(h.ast.iter, ast.Call) and call_name(h.ast.iter) == "enumerate" and
+                isinstance(h.ast.target, ast.Tuple) and dotted(h.ast.target.elts[0]) == "depth" and
+                len(h.ast.iter.args) == 2 and src(h.ast.iter.args[1]) == "1"]
+        if enum and not inc:
+            pass        # depth counted by enumerate(levels[:-1], 1): one step per level by construction
+        else:
+            ok = ok and bool(inc) and bool(hdrs) and V.dominated(sdn, inc)
+            # the depth counter advances exactly once per level walked, whether or not a node is created at that level
+            for h in hdrs:
+                paths = V.cfg.paths(h.id, [h.id], max_visits=2, labels_block=("done",))
+                ctx.paths += len(paths)
+                incs = {n.id for n in inc}
+                ok = ok and bool(paths) and all(sum(1 for i in p[1:-1] if i in incs) == 1 for p in paths if len(p) > 2)
         ctx.check(ok, "T9-names", f, "Store.%s names new nodes '.'.join(levels[:depth]) with depth advanced first" % name,
                   "every node must record its own dotted path as its name")
     for name, fetch, adder in (("create", "self.fetchShare", "self.add"), ("createNode", "self.fetchNode", "self.addNode")):
